@@ -3,7 +3,7 @@ import csv, io, os, sys, tempfile
 sys.path.insert(0, os.path.dirname(__file__))
 from _common import main
 
-BOUND = 'tables over the configured output columns (MTI, DE, PDS), 1..12 rows, numeric boundary values incl. zero, ISO date-times, cells with commas / quotes / spaces, sparse rows, PDS sizes sweeping the 999 carrier boundary; encodings None/latin_1/cp500; blocked and unblocked; function entry points and cli_run on temp files'
+BOUND = 'values with long runs of blanks, command entry points with and without 1014 blocking in 3 encodings; tables over the configured output columns (MTI, DE, PDS), 1..12 rows, numeric boundary values incl. zero, ISO date-times, cells with commas / quotes / spaces, sparse rows, PDS sizes sweeping the 999 carrier boundary; encodings None/latin_1/cp500; blocked and unblocked; function entry points and cli_run on temp files'
 
 
 def table(rng, kind):
@@ -18,6 +18,9 @@ def table(rng, kind):
             r.update({'DE31': 'a,b "c" d', 'DE33': '12 34', 'DE93': "it's", 'DE94': ',', 'PDS0023': 'x,"y', 'DE42': 'ABC DEF GHI,JK '})
         if kind == 'sparse' and i % 2:
             r.update({'DE38': '123456', 'PDS0148': '0361'})
+        if kind == 'blanks':
+            # long runs of blanks (0x40 in the EBCDIC encodings, the 1014 fill byte) inside values
+            r.update({'PDS0023': 'a' + ' ' * 988 + 'b', 'PDS0052': 'c' + ' ' * 988 + 'd', 'DE72': 'e' + ' ' * 900 + 'f', 'DE127': 'g' + ' ' * 950 + 'h'})
         if kind == 'pds':
             r.update({'PDS0023': 'p' * rng.choice([485, 486, 490, 492, 493, 500]), 'PDS0052': 'q' * 500, 'PDS0158': 'z' * rng.randint(0, 40)})
         rows.append(r)
@@ -25,7 +28,7 @@ def table(rng, kind):
 
 
 def oracle(inp):
-    if not isinstance(inp, dict) or inp.get('kind') not in ('numeric','meta','sparse','pds'):
+    if not isinstance(inp, dict) or inp.get('kind') not in ('numeric','meta','sparse','pds','blanks'):
         return None          # unknown input kind (model of another property's unit)
     import random
     from cardutil.config import config
@@ -74,6 +77,11 @@ def cases(tier, rng):
                     yield {'kind': kind, 'enc': enc, 'no1014': no1014, 'seed': seed}
     for kind in ('numeric', 'meta'):
         yield {'kind': kind, 'enc': 'cp500', 'no1014': False, 'seed': 7, 'cli': True}
+    for enc in ('cp500', 'latin_1', 'cp037'):
+        for no1014 in (True, False):
+            for cli in (True, False):
+                yield {'kind': 'blanks', 'enc': enc, 'no1014': no1014, 'seed': 2, 'cli': cli}
+                yield {'kind': 'pds', 'enc': enc, 'no1014': no1014, 'seed': 3, 'cli': cli}
 
 
 if __name__ == '__main__':
